@@ -10,8 +10,6 @@ from common import hexb
 
 LEVEL = "proof"
 
-FINDING_SEQ_ARRAY = "C07.sequence_array_member.fixpoint"
-
 # numpy dtype char -> what a DAP2 DDS must declare it as / what the client must decode it with (the
 # oracle's own table: deliberately NOT read from the repository)
 SPEC_TYPES = {"d": ("Float64", ">f8"), "f": ("Float32", ">f4"), "h": ("Int16", ">i2"), "H": ("UInt16", ">u2"),
@@ -37,8 +35,27 @@ def load():
                 StructureType=StructureType, DummyData=DummyData, dds_to_dataset=dds_to_dataset, dds=dds)
 
 
+class HeldData(object):
+    """stands for data a variable HOLDS (anything that is not the parser's DummyData): dtype and shape only, so
+    that extents up to 2^31-1 in three dimensions can be exercised; inside k sequences the leading k axes of
+    `shape` are record axes"""
+
+    def __init__(self, dtype, shape):
+        self.dtype = dtype
+        self.shape = shape
+
+
 # ---------------------------------------------------------------------------------------------------
-# specs: ("b", rawname, dtypechar, shape, dims) | ("st", rawname, kids) | ("sq", rawname, kids) | ("g", rawname, bases)
+# specs: ("b", rawname, dtypechar, shape, dims, nodata) | ("st", rawname, kids) | ("sq", rawname, kids) |
+#        ("g", rawname, bases).  nodata=True: the variable has no data (DummyData, what the parser builds) and
+#        `shape` is its declared shape; nodata=False: it holds data, `shape` = record axes + declared shape.
+#        A 5-tuple base (older replay files, FIXED_TREES) means nodata=False.
+def full(spec):
+    if spec[0] == "b":
+        return ("b", spec[1], spec[2], tuple(spec[3]), tuple(spec[4]), bool(spec[5]) if len(spec) > 5 else False)
+    return (spec[0], spec[1], [full(k) for k in spec[2]])
+
+
 def gen_name(rng, used, plain=0.5):
     for _ in range(50):
         n = rng.randint(1, 6)
@@ -65,23 +82,35 @@ def gen_extent(rng):
                        rng.randint(0, 5000)])
 
 
-def gen_base(rng, used, depth_seq, mode):
-    """mode: 'domain' (the property's trees), 'odd' (array members of sequences, dims/shape length mismatch)"""
+def pick_nodata(rng, nd):
+    """nd: per-tree policy 'held' (every leaf holds data), 'all' (no leaf has data), 'mixed' (per leaf)"""
+    return nd == "all" or (nd == "mixed" and rng.random() < 0.5)
+
+
+def gen_base(rng, used, depth_seq, mode, nd):
+    """mode: 'domain' (the property's trees: dims absent or one per declared extent; sequence members of rank
+    0..3), 'odd' (dims/shape length mismatch)"""
     name = gen_name(rng, used)
     ch = rng.choice(list(SPEC_TYPES))
     rank = rng.choice([0, 0, 1, 1, 2, 3])
-    if depth_seq and mode == "domain":
-        rank = 0
-    shape = tuple(gen_extent(rng) for _ in range(depth_seq + rank)) if (depth_seq == 0 or rng.random() < 0.8 or rank) \
-        else tuple(gen_extent(rng) for _ in range(rng.randint(0, depth_seq)))
+    nodata = pick_nodata(rng, nd)
+    if nodata:
+        shape = tuple(gen_extent(rng) for _ in range(rank))
+        declared = rank
+    else:
+        # a column of a sequence sometimes has fewer axes than enclosing sequences (nothing left to declare)
+        shape = tuple(gen_extent(rng) for _ in range(depth_seq + rank)) \
+            if (depth_seq == 0 or rng.random() < 0.8 or rank) \
+            else tuple(gen_extent(rng) for _ in range(rng.randint(0, depth_seq)))
+        declared = max(len(shape) - depth_seq, 0)
     dims = ()
-    if rng.random() < 0.5 and (len(shape) - depth_seq > 0 or mode == "odd"):
-        n = len(shape) - depth_seq if mode == "domain" else rng.randint(0, len(shape) + 1)
+    if rng.random() < 0.5 and (declared > 0 or mode == "odd"):
+        n = declared if mode == "domain" else rng.randint(0, len(shape) + 1)
         dims = tuple(gen_dim(rng) for _ in range(n))
-    return ("b", name, ch, shape, dims)
+    return ("b", name, ch, shape, dims, nodata)
 
 
-def gen_grid(rng, used, depth_seq, mode):
+def gen_grid(rng, used, depth_seq, mode, nd):
     name = gen_name(rng, used)
     inner = set()
     rank = rng.randint(1, 3)
@@ -92,44 +121,50 @@ def gen_grid(rng, used, depth_seq, mode):
         if d not in inner:
             inner.add(d)
             dnames.append(d)
-    lead = tuple(gen_extent(rng) for _ in range(depth_seq))
-    if depth_seq and mode == "domain":
-        # a grid inside a sequence would be an array member: keep the domain stream clear of it
-        return gen_base(rng, used, depth_seq, mode)
-    arr = ("b", gen_name(rng, inner), rng.choice(list(SPEC_TYPES)), lead + ext, tuple(dnames))
-    maps = [("b", dn, rng.choice(list(SPEC_TYPES)), lead + (e,), (dn,) if rng.random() < 0.7 else ())
-            for dn, e in zip(dnames, ext)]
+    def lead(nodata):          # record axes of a grid inside sequences, present only in data
+        return () if nodata else tuple(gen_extent(rng) for _ in range(depth_seq))
+
+    na = pick_nodata(rng, nd)
+    arr = ("b", gen_name(rng, inner), rng.choice(list(SPEC_TYPES)), lead(na) + ext, tuple(dnames), na)
+    maps = []
+    for dn, e in zip(dnames, ext):
+        nm = pick_nodata(rng, nd)
+        maps.append(("b", dn, rng.choice(list(SPEC_TYPES)), lead(nm) + (e,), (dn,) if rng.random() < 0.7 else (), nm))
     return ("g", name, [arr] + maps)
 
 
-def gen_kids(rng, depth, depth_seq, mode, maxkids):
+def gen_kids(rng, depth, depth_seq, mode, maxkids, nd):
     used = set()
     kids = []
     for _ in range(rng.randint(0 if depth > 1 and rng.random() < 0.1 else 1, maxkids)):
         r = rng.random()
         if depth >= 4 or r < 0.5:
-            kids.append(gen_base(rng, used, depth_seq, mode))
+            kids.append(gen_base(rng, used, depth_seq, mode, nd))
         elif r < 0.65:
-            kids.append(gen_grid(rng, used, depth_seq, mode))
+            kids.append(gen_grid(rng, used, depth_seq, mode, nd))
         elif r < 0.85:
-            kids.append(("st", gen_name(rng, used), gen_kids(rng, depth + 1, depth_seq, mode, max(1, maxkids - 1))))
+            kids.append(("st", gen_name(rng, used), gen_kids(rng, depth + 1, depth_seq, mode, max(1, maxkids - 1),
+                                                               nd)))
         else:
             kids.append(("sq", gen_name(rng, used), gen_kids(rng, depth + 1, depth_seq + 1, mode,
-                                                               max(1, maxkids - 1))))
+                                                               max(1, maxkids - 1), nd)))
     return kids
 
 
 def gen_dataset(rng, mode):
-    return ("ds", gen_name(rng, set()), gen_kids(rng, 1, 0, mode, rng.choice([1, 2, 3, 5])))
+    r = rng.random()
+    nd = "all" if r < 0.25 else "mixed" if r < 0.40 else "held"
+    return ("ds", gen_name(rng, set()), gen_kids(rng, 1, 0, mode, rng.choice([1, 2, 3, 5]), nd))
 
 
 def build(P, spec):
     """spec -> live pydap objects (names are quoted by the model classes themselves)"""
     kind = spec[0]
     if kind == "b":
-        _, name, ch, shape, dims = spec
+        _, name, ch, shape, dims, nodata = full(spec)
         dt = np.dtype("S3") if ch == "S" else np.dtype("U2") if ch == "U" else np.dtype(ch)
-        return P["BaseType"](name, P["DummyData"](dt, tuple(shape)), dims=tuple(dims))
+        data = P["DummyData"](dt, tuple(shape)) if nodata else HeldData(dt, tuple(shape))
+        return P["BaseType"](name, data, dims=tuple(dims))
     cls = {"st": "StructureType", "sq": "SequenceType", "g": "GridType", "ds": "DatasetType"}[kind]
     out = P[cls](spec[1])
     for k in spec[2]:
@@ -138,13 +173,26 @@ def build(P, spec):
     return out
 
 
+def declared_rank(spec, depth_seq):
+    """number of extents a DDS declares for a base variable below `depth_seq` sequences"""
+    _, _, _, shape, _, nodata = full(spec)
+    return len(shape) if nodata else max(len(shape) - depth_seq, 0)
+
+
 def in_seq_array_class(spec, depth_seq=0):
-    """finding class: some base variable below k>0 sequences has more than k extents"""
+    """the class of the former finding C07.sequence_array_member.fixpoint (fixed in b7ad9b3): some base variable
+    below k>0 sequences declares an extent.  Part of the property's domain; used for the measured distribution."""
     kind = spec[0]
     if kind == "b":
-        return depth_seq > 0 and len(spec[3]) > depth_seq
+        return depth_seq > 0 and declared_rank(spec, depth_seq) > 0
     d = depth_seq + (1 if kind == "sq" else 0)
     return any(in_seq_array_class(k, d) for k in spec[2])
+
+
+def has_nodata(spec):
+    if spec[0] == "b":
+        return full(spec)[5]
+    return any(has_nodata(k) for k in spec[2])
 
 
 DIM_RE = None
@@ -167,11 +215,10 @@ def DIM_RE_OK(s):
 
 
 def in_domain(spec, depth_seq=0):
-    """the property's trees: dims absent or one per declared extent; sequence members are columns"""
+    """the property's trees: dims absent or one per declared extent"""
     kind = spec[0]
     if kind == "b":
-        declared = max(len(spec[3]) - depth_seq, 0)
-        return (not spec[4] or len(spec[4]) == declared) and not (depth_seq and declared)
+        return not spec[4] or len(spec[4]) == declared_rank(spec, depth_seq)
     d = depth_seq + (1 if kind == "sq" else 0)
     return all(in_domain(k, d) for k in spec[2])
 
@@ -191,11 +238,12 @@ def dtype_string(dt):
 
 def dump_live(P, v, model_dtype=None):
     """live object -> the model's S-expression. BaseType dtype: numpy char for source trees (what the printer
-    looks up), parser string for parsed trees."""
+    looks up), parser string for parsed trees.  Last atom: 1 = the variable has no data (DummyData)."""
     if isinstance(v, P["BaseType"]):
         dt = v.dtype.char if model_dtype == "char" else dtype_string(v.dtype)
-        return "(b %s %s (%s) (%s))" % (tx(v.name), tx(dt), " ".join(str(int(n)) for n in v.shape),
-                                         " ".join(tx(d) for d in v.dims))
+        return "(b %s %s (%s) (%s) %d)" % (tx(v.name), tx(dt), " ".join(str(int(n)) for n in v.shape),
+                                            " ".join(tx(d) for d in v.dims),
+                                            1 if isinstance(v.data, P["DummyData"]) else 0)
     tag = "g" if isinstance(v, P["GridType"]) else "sq" if isinstance(v, P["SequenceType"]) else \
         "ds" if isinstance(v, P["DatasetType"]) else "st"
     return "(%s %s (%s))" % (tag, tx(v.name), " ".join(dump_live(P, c, model_dtype) for c in v.children()))
@@ -217,9 +265,12 @@ def impl_parse(P, text):
 # ---------------------------------------------------------------------------------------------------
 # the oracle's own view of a tree (independent of pydap's tables and of the Lean model)
 def spec_view(P, v, depth_seq=0):
-    """what a reader of the DDS must learn about the source object `v`"""
+    """what a reader of the DDS must learn about the source object `v`: a variable that holds data has one
+    record axis per enclosing sequence, which is not declared; a variable without data has its declared shape"""
     if isinstance(v, P["BaseType"]):
-        shape = tuple(int(n) for n in v.shape)[depth_seq:]
+        shape = tuple(int(n) for n in v.shape)
+        if not isinstance(v.data, P["DummyData"]):
+            shape = shape[depth_seq:]
         dims = tuple(v.dims)
         if not dims and len(shape) == 1:
             dims = (v.name,)
@@ -466,10 +517,29 @@ def mutate(rng, text):
 
 
 # ---------------------------------------------------------------------------------------------------
-def check_tree(ctx, P, spec, cases, where):
-    ds = build(P, spec)
+def numpy_sequence(P):
+    """a Sequence holding a REAL numpy structured array: 5 records of (3 int16 values, one float64)"""
+    ds = P["DatasetType"]("d")
+    q = P["SequenceType"]("Q")
+    q["i"] = P["BaseType"]("i")
+    q["k"] = P["BaseType"]("k")
+    q.data = np.zeros(5, dtype=[("i", "<i2", (3,)), ("k", "<f8")])
+    ds["Q"] = q
+    return ds
+
+
+NUMPY_SEQUENCE_SPEC = ("ds", "d", [("sq", "Q", [("b", "i", "h", (5, 3), (), False), ("b", "k", "d", (5,), (), False)])])
+LIVE = {"numpy_sequence": (numpy_sequence, NUMPY_SEQUENCE_SPEC, "        Int16 i[i = 3];\n")}
+
+
+def check_tree(ctx, P, spec, cases, where, live=None):
+    """`live`: key of LIVE — the dataset is built by that function (real data objects) and `spec` describes it"""
+    spec = full(spec)
+    ds = LIVE[live][0](P) if live else build(P, spec)
     src = dump_live(P, ds, "char")
     case = {"kind": "tree", "spec": spec}
+    if live:
+        case["live"] = live
     try:
         text = "".join(P["dds"](ds))
     except Exception as e:
@@ -478,6 +548,8 @@ def check_tree(ctx, P, spec, cases, where):
     if not ascii_ok(text):
         ctx.oracle_fail("DDS text is not ASCII", case, repr(text), "ascii")
         return
+    if live and LIVE[live][2] not in text:
+        ctx.oracle_fail("DDS does not declare the per-record shape of a sequence member", case, text, LIVE[live][2])
     cases.append(("dds-print " + src, hexb(text.encode()), {"spec": spec, "text": text}))
     d2, dump2 = impl_parse(P, text)
     cases.append(("dds-parse " + hexb(text.encode()), dump2, {"text": text}))
@@ -487,9 +559,9 @@ def check_tree(ctx, P, spec, cases, where):
         ctx.count(("outside", src), False, tag="outside:dimension-name-not-in-name_regexp:" +
                   ("parses" if d2 is not None else "does-not-parse"))
         return
-    cls = FINDING_SEQ_ARRAY if in_seq_array_class(spec) else None
     dom = in_domain(spec)
-    ctx.count(("tree", src), True, tag=where + (":domain" if dom else ":seq-array" if cls else ":odd"),
+    ctx.count(("tree", src), True, tag=where + (":domain" if dom else ":odd")
+              + ("+array-in-sequence" if in_seq_array_class(spec) else "") + ("+nodata" if has_nodata(spec) else ""),
               sample={"spec": repr(spec)[:300], "text": text[:300]})
     if d2 is None:
         ctx.oracle_fail("printed DDS does not parse", case, dump2, "a dataset", size=len(text))
@@ -499,17 +571,14 @@ def check_tree(ctx, P, spec, cases, where):
     if dom and exp != got:
         ctx.oracle_fail("parsed dataset differs from the printed one (kinds, names, order, types, shapes, dims)",
                         case, repr(got), repr(exp), size=len(text))
-    # (2) text fixpoint
+    # (2) text fixpoint: every tree whose text parses (theorem C07_fixpoint has no hypothesis; the odd trees'
+    # dims/shape mismatch is truncated by the printer once and for all)
     try:
         text2 = "".join(P["dds"](d2))
     except Exception as e:
         text2 = "raised " + type(e).__name__
     if text2 != text:
-        if dom or cls:
-            ctx.oracle_fail("printing the parsed dataset does not reproduce the DDS", case, text2, text, cls=cls,
-                            size=len(text))
-        else:
-            ctx.count(("odd-nonfix", src), False, tag="odd:not-a-fixpoint(dims/shape length mismatch)")
+        ctx.oracle_fail("printing the parsed dataset does not reproduce the DDS", case, text2, text, size=len(text))
 
 
 def check_foreign(ctx, P, rng, cases):
@@ -539,6 +608,8 @@ def explore(ctx, tier, search=False):
         check_tree(ctx, P, gen_dataset(rng, mode), cases, mode)
     for spec in FIXED_TREES:
         check_tree(ctx, P, spec, cases, "fixed")
+    for key in sorted(LIVE):
+        check_tree(ctx, P, LIVE[key][1], cases, "fixed-live", live=key)
     ctx.correspond("dds()/dds_to_dataset on printed trees", cases, known_class=None)
     # `_quote` on raw ASCII names (the bridge from raw names to the theorems' domain `NameOk`)
     from pydap.lib import _quote
@@ -622,22 +693,23 @@ FIXED_TREES = [
     ("ds", "x", [("b", "v", "d", (4,), ("/y",))]),
     ("ds", "x", [("b", "v", "d", (4, 2), ("a b", "c"))]),
     ("ds", "x", [("g", "g", [("b", "a", "d", (2,), ("lat[",)), ("b", "lat[", "d", (2,), ())])]),
+    # variables without data (what the parser builds): the declared shape is printed whole, at any depth
+    ("ds", "d", [("sq", "Q", [("b", "i", "h", (3,), (), True)])]),
+    ("ds", "d", [("sq", "Q", [("b", "i", "h", (5, 3), (), True), ("b", "j", "h", (5, 3), (), False),
+                              ("sq", "R", [("b", "m", "f", (2, 4), ("x", "y"), True),
+                                           ("b", "n", "f", (5, 6, 2, 4), ("x", "y"), False)]),
+                              ("g", "G", [("b", "a", "d", (5, 2), ("x",), False), ("b", "x", "d", (2,), ("x",), True)])])]),
 ]
-
-
-def witness_seq_array():
-    """the recorded witness of the open finding: still not a fixpoint?"""
-    P = load()
-    ds = build(P, FIXED_TREES[0])
-    text = "".join(P["dds"](ds))
-    return "".join(P["dds"](P["dds_to_dataset"](text))) != text
 
 
 def run(ctx):
     ctx.rule = ("seeded random dataset trees following the property's quantifier (every numpy dtype char of the DAP2 "
                 "table, rank 0..3, extents 0..2^31-1, with/without named dimensions, Structure/Grid/Sequence nested "
-                "to depth 4, names from identifiers plus characters that need quoting incl. non-ASCII) plus 20% "
-                "'odd' trees (array members of sequences, dims/shape length mismatch), fixed regression trees, "
+                "to depth 4, array members and grids inside sequences, names from identifiers plus characters that "
+                "need quoting incl. non-ASCII; per tree every leaf holds data (record axes + declared shape; 60%), no "
+                "leaf has data (DummyData, declared shape only; 25%) or mixed per leaf (15%)) plus 20% 'odd' trees "
+                "(dims/shape length mismatch), fixed regression trees incl. a Sequence holding a real numpy "
+                "structured array, "
                 "foreign-style texts from the harness's own printer (Url/Int/UInt, anonymous dimensions, random "
                 "keyword case, random inter-token whitespace) and a malformed stream (mutated texts); every case "
                 "counts as non-trivial; distinct by canonical tree / text")
@@ -648,8 +720,7 @@ def run(ctx):
                        "the model"]
     ctx.proof_phase()
     explore(ctx, ctx.tier)
-    return ctx.finish(search=lambda c: explore(c, "thorough", search=True),
-                      witnesses={FINDING_SEQ_ARRAY: witness_seq_array})
+    return ctx.finish(search=lambda c: explore(c, "thorough", search=True), witnesses={})
 
 
 def replay(payload):
@@ -661,9 +732,9 @@ def replay(payload):
     c = f["case"]
 
     def tup(x):
-        if isinstance(x, list):
+        if isinstance(x, (list, tuple)):
             if x and x[0] == "b":
-                return ("b", x[1], x[2], tuple(x[3]), tuple(x[4]))
+                return full(x)          # 5 elements (older replay files): a variable holding data
             return (x[0], x[1], [tup(k) for k in x[2]])
         return x
 
@@ -674,21 +745,24 @@ def replay(payload):
         return DIM_RE_OK(q)
     if c["kind"] == "tree":
         spec = tup(c["spec"])
-        ds = build(P, spec)
+        ds = LIVE[c["live"]][0](P) if c.get("live") else build(P, spec)
         text = "".join(P["dds"](ds))
+        ok = True
+        if c.get("live") and LIVE[c["live"]][2] not in text:
+            print("DDS does not declare %r:\n%s" % (LIVE[c["live"]][2], text))
+            ok = False
         try:
             d2 = P["dds_to_dataset"](text)
         except Exception as e:
             print("printed DDS does not parse:", type(e).__name__, e)
             return False
-        ok = True
         if in_domain(spec):
             exp, got = norm_dt(spec_view(P, ds)), norm_dt(parsed_view(P, d2))
             if exp != got:
                 print("tree differs:\n observed %r\n expected %r" % (got, exp))
                 ok = False
         text2 = "".join(P["dds"](d2))
-        if text2 != text and (in_domain(spec) or in_seq_array_class(spec)):
+        if text2 != text:
             print("not a fixpoint:\n%s\nvs\n%s" % (text2, text))
             ok = False
         return ok
